@@ -18,7 +18,7 @@ Trace == ndJsonDeserialize(IOEnv.VERIF_TRACE)
 
 CONSTANTS NSMaxNodes, NSMaxEdges,     \* size bounds for the layer-3 predictions (cost of evaluating the models in TLC)
           CBMaxNodes, CBMaxEdges, POMaxNodes, WMMaxNodes, WMMaxEdges,
-          NPMaxAux                        \* network-simplex positioner: bound on the nodes of the auxiliary graph
+          BKMaxNodes, NPMaxAux            \* network-simplex positioner: bound on the nodes of the auxiliary graph
 VARIABLES l, call, prev, cnt,
           xacc,     \* crossings of the orders recorded so far for the components of the current call
           out       \* the layout the collect loop of autolayout.go must return for the components recorded so far:
@@ -135,7 +135,7 @@ PosGraph(a) ==
      virt |-> [i \in DOMAIN a.nodes |-> a.nodes[i][2]], layer |-> [i \in DOMAIN a.nodes |-> a.nodes[i][3]],
      pos |-> [i \in DOMAIN a.nodes |-> a.nodes[i][4]],
      ef |-> [i \in DOMAIN a.edges |-> IndexOf(a, a.edges[i][1])], et |-> [i \in DOMAIN a.edges |-> IndexOf(a, a.edges[i][2])],
-     inl |-> a.inl,
+     inl |-> a.inl, outl |-> a.outl,
      layers |-> [ly \in DOMAIN a.layers |-> [j \in DOMAIN a.layers[ly] |-> IndexOf(a, a.layers[ly][j])]]]
 POApplies(c, a, s) == /\ c.p4 \in {"valign", "pack", "sink"} /\ Len(a.nodes) >= 2 /\ Len(a.nodes) <= POMaxNodes
                       /\ s.exact = 1 /\ Len(s.nodes) = Len(a.nodes)
@@ -161,6 +161,18 @@ NPDrift(c, a, s) ==
             ELSE LET x2 == XFromRanks(G, R.rank, Q) IN
                  If(\A i \in DOMAIN s.nodes : 2 * s.nodes[i][5] = x2[i], "L3_XAsModelled_nspos")
                  \cup If(\A i \in DOMAIN s.nodes : s.nodes[i][6] = PO!YOfLayer(G, Q * c.ls, s.nodes[i][3] + 1), "L3_YAsModelled")
+
+\* the Brandes-Koepf positioner (balanced or one forced layout): every x exactly
+BK == INSTANCE BKOps
+BKApplies(c, a, s) == /\ c.p4 \in {"bk", "bk0", "bk1", "bk2", "bk3"} /\ Len(a.nodes) >= 2 /\ Len(a.nodes) <= BKMaxNodes
+                      /\ s.exact = 1 /\ Len(s.nodes) = Len(a.nodes)
+BKDrift(c, a, s) ==
+    IF ~BKApplies(c, a, s) THEN {}
+    ELSE LET G == PosGraph(a)
+             forced == CASE c.p4 = "bk0" -> 0 [] c.p4 = "bk1" -> 1 [] c.p4 = "bk2" -> 2 [] c.p4 = "bk3" -> 3 [] OTHER -> -1
+             x2 == BK!BKX2(G, Q * c.ns, forced)
+         IN If(\A i \in DOMAIN s.nodes : 2 * s.nodes[i][5] = x2[i], "L3_XAsModelled_" \o c.p4)
+            \cup If(\A i \in DOMAIN s.nodes : s.nodes[i][6] = PO!YOfLayer(G, Q * c.ls, s.nodes[i][3] + 1), "L3_YAsModelled")
 
 \* ---- layer 3 bound to the code: the routers' points are predicted exactly (half units) from the positioned graph
 RO == INSTANCE RouteOps
@@ -193,7 +205,7 @@ Broken(c, a, s) ==
       [] s.st = 1 -> (IF a.st = 0 THEN Contract1(c, a, s) \cup CBDrift(c, a, s) ELSE {"StageOrder"})
       [] s.st = 2 -> (IF a.st = 1 THEN Contract2(c, a, s) \cup NSDrift(c, a, s) \cup LPDrift(c, a, s) ELSE {"StageOrder"})
       [] s.st = 3 -> (IF a.st = 2 THEN Contract3(c, a, s) \cup BLDrift(c, a, s) \cup WMDrift(c, a, s) ELSE {"StageOrder"})
-      [] s.st = 4 -> (IF a.st = 3 THEN Contract4(c, a, s) \cup PODrift(c, a, s) \cup NPDrift(c, a, s) ELSE {"StageOrder"})
+      [] s.st = 4 -> (IF a.st = 3 THEN Contract4(c, a, s) \cup PODrift(c, a, s) \cup NPDrift(c, a, s) \cup BKDrift(c, a, s) ELSE {"StageOrder"})
       [] s.st = 5 -> (IF a.st = 4 THEN Contract5(c, a, s) \cup RODrift(c, a, s) ELSE {"StageOrder"})
       [] s.st = 6 -> (IF a.st = 5 THEN Contract6(c, s.comp, a, s) ELSE {"StageOrder"})
       [] OTHER -> {"UnknownStage"}
@@ -234,6 +246,7 @@ TraceStage ==
                                                     + (IF s.st = 1 /\ prev.st = 0 /\ CBApplies(call, prev, s) THEN 1 ELSE 0)
                                                     + (IF s.st = 4 /\ prev.st = 3 /\ POApplies(call, prev, s) THEN 1 ELSE 0)
                                                     + (IF s.st = 4 /\ prev.st = 3 /\ NPApplies(call, prev, s) THEN 1 ELSE 0)
+                                                    + (IF s.st = 4 /\ prev.st = 3 /\ BKApplies(call, prev, s) THEN 1 ELSE 0)
                                                     + (IF s.st = 3 /\ prev.st = 2 /\ BLApplies(call, prev, s) THEN 1 ELSE 0)
                                                     + (IF s.st = 3 /\ prev.st = 2 /\ WMApplies(call, prev, s) THEN 1 ELSE 0)
                                                     + (IF s.st = 5 /\ prev.st = 4 /\ ROApplies(call, prev, s) THEN 1 ELSE 0)]
